@@ -55,6 +55,9 @@ CHECKS['C08'] = dict(tech=T + ' (detail::clone_if_necessary, Inline_Array_AST_No
 CHECKS['C03'] = dict(tech=T + ': Operators::to_operator on all operator-alphabet strings, and evaluator nodes (Block, Scopeless_Block, If, While, Logical_And/Or, Equation, Inline_Array) against per-construct reference semantics written in the harness',
    text='Per-construct obligations: every spelling of 1-4 operator characters denotes exactly the operation of the language reference (the hash dispatch confuses none); node-level semantics with abstract children: statement order and block value, branch selection, short circuit, loop/break/continue, assignment order and routing, vector-literal construction. Whole programs follow by induction over the tree (argued).',
    note='precedence/associativity of the parser recursion, For/Ranged_For/Switch/Fun_Call/Lambda/Def/classes are not covered yet; children are abstract')
+CHECKS['C15'] = dict(tech=T + ' (Dispatch_Engine::get_state/set_state) with container copy operations as recorders and the lock model of C13',
+   text='get_state copies each of the five engine tables into its counterpart of the returned State with the engine mutex held; set_state assigns each of the five tables from the given State with the mutex held unique; locks released on exit.',
+   note='container copies are recorders (what a copy contains is libstdc++); snapshot stability under later add_function (copy-on-write), ChaiScript_Basic-level state (used files, modules) are not covered yet')
 ALL = ['C%02d' % i for i in range(1, 21)]
 def main():
     checks = []
